@@ -529,6 +529,13 @@ thread_local! {
     /// is the group's canonical rendering, not a run over the same bytes
     static GROUP: std::cell::RefCell<Option<String>> = const { std::cell::RefCell::new(None) };
 }
+thread_local! {
+    static CORRUPTION: std::cell::Cell<Option<(usize, usize, usize, &'static str)>> = const { std::cell::Cell::new(None) };
+}
+/// the input of the following runs is a well-formed document corrupted at this (line, column range)
+pub fn set_corruption(c: Option<(usize, usize, usize, &'static str)>) {
+    CORRUPTION.with(|x| x.set(c));
+}
 pub fn set_group(g: Option<String>) {
     GROUP.with(|c| *c.borrow_mut() = g);
 }
@@ -537,7 +544,10 @@ pub fn set_group(g: Option<String>) {
 pub fn run_traced(id: u64, input: &[u8], cfg: &RunCfg) {
     let limit = cfg.fault.unwrap_or(input.len()).min(input.len());
     let group = GROUP.with(|c| c.borrow().clone()).unwrap_or_default();
-    trace::rec(json!({"ev":"reset","kind":"parser","id":id,"group":group,"parser":cfg.parser,"lit":cfg.lit,"flag":cfg.flag,
+    let cor = CORRUPTION.with(|x| x.get());
+    trace::rec(json!({"ev":"reset","kind":"parser","id":id,"group":group,
+        "corrupt":cor.is_some(),"cline":cor.map_or(0, |c| c.0),"clo":cor.map_or(0, |c| c.1),"chi":cor.map_or(0, |c| c.2),
+        "ckind":cor.map_or("", |c| c.3),"parser":cfg.parser,"lit":cfg.lit,"flag":cfg.flag,
         "input":bytes_json(input),"limit":limit,"faulty":cfg.fault.is_some(),"chunk":cfg.chunk,
         "policy":policy_json(&cfg.policy),"lines": matches!(cfg.policy, Policy::Lines), "intr":cfg.intr_pm > 0,
         "ref":cfg.is_ref,"build":cfg.build,"bufreader":cfg.bufreader.is_some()}));
